@@ -44,7 +44,7 @@ import (
 )
 
 const preamble = `From Coq Require Import String List NArith ZArith.
-From Fabio Require Import Lib.Outcome Lib.Bytes Lib.Pack Model.FlagSet Model.KVSlice Model.GlobCacheSize Model.StartUp Model.LoadArgs Check.C15.
+From Fabio Require Import Lib.Outcome Lib.Bytes Lib.Pack Model.FlagSet Model.KVSlice Model.GlobCacheSize Model.StartUp Model.LoadArgs Model.EnumOptions Check.C15.
 Import ListNotations.
 Local Open Scope N_scope.
 `
@@ -821,6 +821,10 @@ func main() {
 
 	// ===== 6. parseKVSlice, lex and the library models =====
 	genKVCases(run, r)
+
+	// ===== 7. enumerated options: accepted => the proxies main() builds can serve =====
+	// (last, with a rand source of its own: the inputs of the classes above do not depend on it)
+	genEnumCases(run, repo)
 
 	run.Finish(preamble, run.Scale(200, 500))
 }
@@ -1939,4 +1943,219 @@ func genKVCases(run *vh.Run, r *rand.Rand) {
 		run.Add("lib-toupper", vh.App("CUpper", vh.HxS(in), vh.HxS(strings.ToUpper(in))), map[string]interface{}{"in": in})
 	}
 	_ = time.Second
+}
+
+// ---------- enumerated options: proxy.strategy, proxy.matcher, ui.access ----------
+// Every job is one config.Load in the driver /repo/verif_c15_test.go (package main, built with
+// `go test -tags verif -c`), which then builds what main() builds from the returned
+// configuration (newHTTPProxy, lookupHostFn, lookupHostMatcher, the gRPC interceptor, the admin
+// server) and probes every consumer against a table with routes of 1, 2 and 3 targets.
+// Values: the valid ones, their upper-case / capitalised / randomly cased spellings (from every
+// source), near misses (blanks around, prefixes, longer words, empty, lists), and random
+// combinations of the three options from several sources at once.
+func caseVariants(r *rand.Rand, v string) []string {
+	out := []string{strings.ToUpper(v), strings.ToUpper(v[:1]) + v[1:]}
+	for tries := 0; tries < 20; tries++ {
+		b := []byte(v)
+		for i := range b {
+			if r.Intn(2) == 0 && b[i] >= 'a' && b[i] <= 'z' {
+				b[i] -= 32
+			}
+		}
+		x := string(b)
+		if x != v && x != out[0] && x != out[1] {
+			return append(out, x)
+		}
+	}
+	return out
+}
+
+func genEnumCases(run *vh.Run, repo string) {
+	r := rand.New(rand.NewSource(run.Seed*7919 + 15))
+	type enumOpt struct {
+		o     option
+		class string
+		valid []string
+		near  []string
+	}
+	eopts := []enumOpt{
+		{option{Name: "proxy.strategy", Kind: "string"}, "strategy", []string{"rr", "rnd"},
+			[]string{"", " rr", "rr ", "r", "rrr", "roundrobin", "random", "rr,rnd", "\uff52\uff52"}},
+		{option{Name: "proxy.matcher", Kind: "string"}, "matcher", []string{"prefix", "glob", "iprefix"},
+			[]string{"", "prefix ", " glob", "pre", "regex", "glob*", "prefix,glob", "\u0130prefix"}},
+		{option{Name: "ui.access", Kind: "string"}, "access", []string{"ro", "rw"},
+			[]string{"", "ro ", " rw", "r", "w", "rwx", "read-only", "ro,rw"}},
+	}
+	type job struct {
+		class  string
+		a      arrangement
+		args   []string
+		sample map[string]interface{}
+	}
+	var jobs []job
+	add := func(class string, a arrangement, sample map[string]interface{}) {
+		args, ok := buildArgs(a)
+		if !ok {
+			run.Exclude("value not expressible in the properties file syntax")
+			return
+		}
+		sample["arrangement"] = a
+		jobs = append(jobs, job{class, a, args, sample})
+	}
+	n := 0
+	for _, eo := range eopts {
+		var all []string
+		for _, v := range eo.valid {
+			all = append(all, v)
+			all = append(all, caseVariants(r, v)...)
+		}
+		for _, v := range all {
+			for k := 1; k <= 4; k++ {
+				a := arrangement{}
+				place(r, &a, eo.o, k, v)
+				noise(r, &a)
+				add("enum-load-then-serve-"+eo.class, a, map[string]interface{}{"option": eo.o.Name, "value": v, "source": k})
+			}
+		}
+		for _, v := range eo.near {
+			ks := []int{1 + n%4}
+			if run.Thorough() {
+				ks = []int{1, 2, 3, 4}
+			}
+			n++
+			for _, k := range ks {
+				a := arrangement{}
+				place(r, &a, eo.o, k, v)
+				add("enum-load-then-serve-"+eo.class, a, map[string]interface{}{"option": eo.o.Name, "value": v, "source": k})
+			}
+		}
+	}
+	// several options and several sources at once
+	for i := 0; i < run.Scale(40, 300); i++ {
+		a := arrangement{}
+		given := map[string]interface{}{}
+		for _, eo := range eopts {
+			if r.Intn(5) < 2 {
+				continue
+			}
+			pick := func() string {
+				v := eo.valid[r.Intn(len(eo.valid))]
+				if r.Intn(10) < 3 {
+					cv := caseVariants(r, v)
+					v = cv[r.Intn(len(cv))]
+				}
+				return v
+			}
+			k := 1 + r.Intn(4)
+			v := pick()
+			place(r, &a, eo.o, k, v)
+			given[fmt.Sprintf("%s@%d", eo.o.Name, k)] = v
+			if k2 := 1 + r.Intn(4); k2 != k && r.Intn(3) == 0 {
+				v2 := pick()
+				place(r, &a, eo.o, k2, v2)
+				given[fmt.Sprintf("%s@%d", eo.o.Name, k2)] = v2
+			}
+		}
+		noise(r, &a)
+		add("enum-load-then-serve-combined", a, map[string]interface{}{"given": given})
+	}
+
+	// build and run the driver
+	dir, err := os.MkdirTemp("", "c15enum")
+	if err != nil {
+		panic(err)
+	}
+	defer os.RemoveAll(dir)
+	bin := filepath.Join(dir, "fabio.test")
+	cmd := exec.Command("go", "test", "-tags", "verif", "-c", "-o", bin, ".")
+	cmd.Dir = repo
+	if out, err := cmd.CombinedOutput(); err != nil {
+		run.Violation(run.NextID(), "cannot build the enumerated-options driver (go test -tags verif -c in "+repo+"): "+err.Error(), string(out))
+		return
+	}
+	type jobIn struct{ Args, Env []string }
+	in := make([]jobIn, len(jobs))
+	for i, j := range jobs {
+		in[i] = jobIn{j.args, j.a.Env}
+		if in[i].Env == nil {
+			in[i].Env = []string{}
+		}
+	}
+	inF, outF := filepath.Join(dir, "in.json"), filepath.Join(dir, "out.json")
+	b, _ := json.Marshal(in)
+	os.WriteFile(inF, b, 0o644)
+	c := exec.Command(bin, "-test.run", "TestVerifC15$", "-test.count=1", "-test.timeout=3m")
+	c.Dir = repo
+	c.Env = append(os.Environ(), "VERIF_C15_IN="+inF, "VERIF_C15_OUT="+outF)
+	outb, rerr := c.CombinedOutput()
+	var results []struct {
+		Outcome                   int
+		Err                       string
+		Strategy, Matcher, Access string
+		Probes                    []struct {
+			Site       int
+			Host, Path string
+			Keys       [][]struct {
+				Pfx, Glob, IPfx bool
+				N               int
+			}
+			Out, Hi, Ri int
+			Panic       string
+		}
+		AccessMode int
+		Alternates *bool
+	}
+	ob, ferr := os.ReadFile(outF)
+	if rerr != nil || ferr != nil || json.Unmarshal(ob, &results) != nil || len(results) != len(jobs) {
+		tail := string(outb)
+		if len(tail) > 1500 {
+			tail = tail[len(tail)-1500:]
+		}
+		run.Violation(run.NextID(), "the enumerated-options driver (TestVerifC15 in package main) failed or died", tail)
+		return
+	}
+	siteName := []string{"newHTTPProxy.Lookup", "lookupHostFn", "lookupHostMatcher", "grpc interceptor"}
+	for i, j := range jobs {
+		res := results[i]
+		probes := make([]string, 0, len(res.Probes))
+		var panics []string
+		for _, p := range res.Probes {
+			keys := make([]string, len(p.Keys))
+			for ki, rts := range p.Keys {
+				items := make([]string, len(rts))
+				for ri, x := range rts {
+					items[ri] = vh.App("rt", vh.Bool(x.Pfx), vh.Bool(x.Glob), vh.Bool(x.IPfx), vh.N(x.N))
+				}
+				keys[ki] = vh.List(items)
+			}
+			loc := vh.None
+			if p.Out == 0 && (p.Site == 0 || p.Site == 1) {
+				hi, ri := p.Hi, p.Ri
+				if hi < 0 || ri < 0 {
+					hi, ri = 999, 999 // a target of no route the lookup could have looked at
+				}
+				loc = vh.Some(vh.Pair(vh.N(hi), vh.N(ri)))
+			}
+			probes = append(probes, "("+strings.Join([]string{vh.N(p.Site), vh.List(keys), vh.N(p.Out), loc}, ", ")+")")
+			if p.Out == 3 && p.Site >= 0 && p.Site < len(siteName) {
+				panics = append(panics, fmt.Sprintf("%s host=%q path=%q: %s", siteName[p.Site], p.Host, p.Path, p.Panic))
+			}
+		}
+		alt := vh.None
+		if res.Alternates != nil {
+			alt = vh.Some(vh.Bool(*res.Alternates))
+		}
+		j.sample["outcome(0 config,1 error,3 PANIC)"] = res.Outcome
+		j.sample["err"] = res.Err
+		j.sample["stored"] = []string{res.Strategy, res.Matcher, res.Access}
+		j.sample["admin_mode(0 forbidden,1 served,2 not registered)"] = res.AccessMode
+		if len(panics) > 0 {
+			if len(panics) > 3 {
+				panics = panics[:3]
+			}
+			j.sample["panics"] = panics
+		}
+		stored := "(" + vh.HxS(res.Strategy) + ", " + vh.HxS(res.Matcher) + ", " + vh.HxS(res.Access) + ")"
+		run.Add(j.class, vh.App("CEnum", j.a.coq(), vh.N(res.Outcome), stored, vh.List(probes), vh.N(res.AccessMode), alt), j.sample)
+	}
 }
